@@ -527,19 +527,24 @@ def _find_registered_methods(cls, selector):
       method_info = _INVERSE_REGISTRY[method]
       old_selector = method_info.selector
       new_selector = selector + '.' + method_info.name
-      method_info = method_info._replace(
-          module=selector, selector=new_selector, is_method=True)
-      # Keyed by the method as well: two classes of one Python module may both
-      # have a registered method of this name, i.e. the same old selector.
-      _RENAMED_SELECTORS[(old_selector, method)] = new_selector
-      _REGISTRY.pop(old_selector)
-      _REGISTRY[new_selector] = method_info
-      _INVERSE_REGISTRY[method] = method_info
-      # Bindings made (and calls recorded) under the provisional selector follow
-      # the rename; left behind they would name no registered configurable.
-      for config in (_CONFIG, _CONFIG_PROVENANCE, _OPERATIVE_CONFIG):
-        for key in [key for key in config if key[1] == old_selector]:
-          config[key[0], new_selector] = config.pop(key)
+      # A method already registered under its class stays as it is: this also
+      # runs whenever a scoped reference to the class is created (e.g. while a
+      # config string is generated), which must not touch the shared records.
+      if new_selector != old_selector or not method_info.is_method:
+        method_info = method_info._replace(
+            module=selector, selector=new_selector, is_method=True)
+        # Keyed by the method as well: two classes of one Python module may both
+        # have a registered method of this name, i.e. the same old selector.
+        _RENAMED_SELECTORS[(old_selector, method)] = new_selector
+        _REGISTRY.pop(old_selector)
+        _REGISTRY[new_selector] = method_info
+        _INVERSE_REGISTRY[method] = method_info
+        # Bindings made (and calls recorded) under the provisional selector
+        # follow the rename; left behind they would name no registered
+        # configurable.
+        for config in (_CONFIG, _CONFIG_PROVENANCE, _OPERATIVE_CONFIG):
+          for key in [key for key in config if key[1] == old_selector]:
+            config[key[0], new_selector] = config.pop(key)
       registered_methods[name] = method_info.wrapper
     else:
       if _inverse_lookup(method, allow_decorators=True):
